@@ -1,3 +1,16 @@
+import re
+
+
+def unwrap_text(text):
+    """
+    Text wrapped over several source lines keeps all of its words: the
+    trailing indentation is dropped and inner line wraps become one space.
+    :param text: the content of a text node, leading indentation removed
+    """
+    text = re.sub(r"[\n\r]+\s*$", "", text)
+    return re.sub(r"\s*[\n\r]+\s*", " ", text)
+
+
 def is_leaf(element):
     """
     Return True if the element is a leaf, False otherwise. The element is
